@@ -232,6 +232,10 @@ func convertMbtiles(logger *log.Logger, input string, output string, deduplicate
 			bar.Add(1)
 		}
 	}
+	if header.TileType == Mvt {
+		// the resolver gzips every MVT tile that is not already gzipped
+		header.TileCompression = Gzip
+	}
 	_, err = finalize(logger, resolve, header, tmpfile, output, jsonMetadata)
 	if err != nil {
 		return err
@@ -280,9 +284,6 @@ func finalize(logger *log.Logger, resolve *resolver, header HeaderV3, tmpfile *o
 
 	header.Clustered = true
 	header.InternalCompression = Gzip
-	if header.TileType == Mvt {
-		header.TileCompression = Gzip
-	}
 
 	header.RootOffset = HeaderV3LenBytes
 	header.RootLength = uint64(len(rootBytes))
